@@ -111,6 +111,29 @@ func blocksOf(nodes []*gen.Node) []types.Block {
 	return bs
 }
 
+// validatedStates says whether batch may go in through AddValidatedV2Blocks -
+// a chain of v2 blocks above the require height, each individually valid
+// against the state a syncer would have derived for its parent (the header
+// state when the chain sits on top of an invalid block), first parent known -
+// and returns those states.
+func (s *chainSUT) validatedStates(batch []*gen.Node) ([]consensus.State, bool) {
+	if _, ok := s.cm.State(batch[0].Block.ParentID); !ok || batch[0].Parent == nil || batch[0].Parent.Height < s.net.Require() {
+		return nil, false
+	}
+	states := make([]consensus.State, len(batch))
+	for i, n := range batch {
+		if n.Block.V2 == nil || n.Corrupt != "" || n.OrphanInvalid || (i > 0 && n.Parent != batch[i-1]) {
+			return nil, false
+		}
+		if n.Valid() {
+			states[i] = n.L.State
+		} else {
+			states[i] = n.HState
+		}
+	}
+	return states, true
+}
+
 // expectation is what the statement of C01 lets us predict about one
 // AddBlocks call, computed from the generated tree and core only.
 type expectation struct {
@@ -122,6 +145,13 @@ type expectation struct {
 
 // expect predicts the outcome of submitting batch when the tip is tip.
 func (s *chainSUT) expect(batch []*gen.Node, tip *gen.Node, now time.Time) expectation {
+	return s.expectVia(batch, tip, now, false)
+}
+
+// expectVia is expect for either entry point: AddValidatedV2Blocks
+// (validated) demands a known parent for the first block and has no
+// timestamp rule; everything about weight and validity is the same.
+func (s *chainSUT) expectVia(batch []*gen.Node, tip *gen.Node, now time.Time, validated bool) expectation {
 	// "known" is observed, not modelled: a block is known when the node can
 	// produce a state for it
 	stored := func(id types.BlockID) bool { _, ok := s.cm.State(id); return ok }
@@ -144,6 +174,8 @@ func (s *chainSUT) expect(batch []*gen.Node, tip *gen.Node, now time.Time) expec
 			return expectation{mustErr: true, why: fmt.Sprintf("block %d of the batch has an unknown parent", i)}
 		case n.OrphanInvalid:
 			return expectation{mustErr: true, why: fmt.Sprintf("block %d of the batch fails the header/payout checks (%s)", i, n.Corrupt)}
+		case validated:
+			// no header rules on this path
 		case n.Block.Timestamp.After(now.Add(3 * time.Hour)):
 			if stored(n.ID) {
 				// may be skipped as already applied, or rejected again: both fine
